@@ -816,6 +816,9 @@ def inline_new_constants(P):
                 _ConstSubst(mm).visit(fn)
                 _FoldInts().visit(fn)
                 n += 1
+                from .canon import _Desugar
+                _Desugar().visit(fn)            # (a bool-keyed table subscripted by a test, a slice object ..)
+                ast.fix_missing_locations(fn)
                 # a table that is now a display may be one of the shapes the canonical form reads back (a loop over constant rows)
                 if not isinstance(fn, ast.Lambda) and any(isinstance(x, ast.For) and isinstance(x.iter, (ast.Tuple, ast.List)) for x in ast.walk(fn)):
                     from .canon import canonicalise_function
@@ -1218,6 +1221,7 @@ def normalise_calls(P):
             # a new helper every use of which was expanded no longer exists as a unit of the program the rules see: its statements are
             # judged where they now stand (in the callers), not a second time out of context
             used = {t for (_, t) in state['expanded']}
+            P.expanded_callers = {q_ for (q_, _t) in state['expanded']}
             absorbed = {}
             newnodes = {id(P.funcs[q].node) for q in used if q in P.funcs}
 
